@@ -162,6 +162,9 @@ def run(chk):
                                           "static_encode": se, "dynamic_encode": de})
                     # a frame that matches no binding
                     sid = chk.rng.randrange(2048) if chk.rng.random() < 0.5 else chk.rng.choice(cans).fields["id"]
+                    if chk.rng.random() < 0.25:
+                        # identifiers beyond 11 bits whose low bits are those of a binding (the frame carries 16 bits): not that binding
+                        sid = (chk.rng.choice(cans).fields["id"] + chk.rng.choice([2048, 4096, 32768])) % 65536
                     fbus = chk.rng.choice(["can1", "can2", "bus0", "zzzz", "ab", "yyyy", "CAN1", "CAN2", "BUS0", "Can1"]).encode().ljust(4, b"\0").hex()
                     matches = [j for j in cans if j.fields["id"] == sid and (j.fields.get("bus") or "").encode().ljust(4, b"\0").hex() == fbus]
                     data = "00" * 8
